@@ -1217,6 +1217,7 @@ func (s *Store) streamBackupDB(ctx context.Context, name string, remotePos ltx.P
 	// OPTIMIZE: Check that remote postApplyChecksum equals next TXID's preApplyChecksum
 
 	// Collect all transaction files to catch up from remote position to current position.
+	var pageSize uint32
 	var rdrs []io.Reader
 	defer func() {
 		for _, r := range rdrs {
@@ -1240,6 +1241,28 @@ func (s *Store) streamBackupDB(ctx context.Context, name string, remotePos ltx.P
 		} else if err != nil {
 			return ltx.Pos{}, fmt.Errorf("open ltx file: %w", err)
 		}
+
+		// Files with different page sizes cannot be compacted into one (the
+		// database was deleted & recreated with another page size). End this
+		// batch at the change; the rest is sent by the next round.
+		var hdr ltx.Header
+		buf := make([]byte, ltx.HeaderSize)
+		if _, err := io.ReadFull(f, buf); err != nil {
+			_ = f.Close()
+			return ltx.Pos{}, fmt.Errorf("read ltx header: %w", err)
+		} else if err := hdr.UnmarshalBinary(buf); err != nil {
+			_ = f.Close()
+			return ltx.Pos{}, fmt.Errorf("decode ltx header: %w", err)
+		} else if _, err := f.Seek(0, io.SeekStart); err != nil {
+			_ = f.Close()
+			return ltx.Pos{}, fmt.Errorf("seek ltx file: %w", err)
+		}
+		if n > 0 && hdr.PageSize != pageSize {
+			_ = f.Close()
+			break
+		}
+		pageSize = hdr.PageSize
+
 		rdrs = append(rdrs, f)
 	}
 
